@@ -113,6 +113,15 @@ def run(ck: Check) -> None:
                   Case("key", ["priv_equiv", kp, proto.KeyObj(True, seeds[0])], tag="equiv"), Case("key", ["priv_equiv", proto.KeyObj(True, seeds[0]), kp], tag="equiv"),
                   Case("key", ["pub_equiv", kpub, proto.KeyObj(False, seeds[1])], tag="equiv"), Case("key", ["priv_equiv", kp, kpub], tag="equiv-kinds"),
                   Case("key", ["pub_equiv", kpub, kp], tag="equiv-kinds"), Case("key", ["pub_equiv", kp, kpub], tag="equiv-kinds")]
+    # one 32-byte value read as a private key and as a public key, in both orders, repeatedly: each reading gives a key of the kind asked for
+    for seed in seeds[:6]:
+        hx = seed.hex()
+        for order in (("priv_from_hex", "pub_from_hex", "priv_from_hex", "pub_from_hex"), ("pub_from_bytes", "priv_from_bytes", "pub_from_bytes")):
+            for fn_ in order:
+                cases.append(Case("key", [fn_, hx if fn_.endswith("hex") else seed], tag="conv-same-value-both-kinds"))
+        seed2 = bytes(reversed(seed))
+        cases += [Case("key", ["pub_from_hex", seed2.hex()], tag="conv-same-value-both-kinds"), Case("key", ["priv_from_hex", seed2.hex()], tag="conv-same-value-both-kinds"),
+                  Case("key", ["priv_to_hex", proto.KeyObj(True, seed2)], tag="conv-same-value-both-kinds"), Case("key", ["public_of", proto.KeyObj(True, seed2)], tag="conv-same-value-both-kinds")]
     s0 = seeds[3 % len(seeds)]
     for n in [0, 1, 16, 31, 33, 64]:
         cases += [Case("key", ["priv_from_bytes", bytes(n)], tag="bad-length"), Case("key", ["pub_from_bytes", bytes(n)], tag="bad-length")]
@@ -141,6 +150,9 @@ def run(ck: Check) -> None:
         ck.oracle_checks += 1
         if r.case.tag.startswith("bad") and r.impl != "E ArgError":
             ck.violation("a malformed key encoding was not rejected with an argument error", {"call": r.case.args[0], "arg": proto.enc(r.case.args[1])[:200] if not isinstance(r.case.args[1], proto.Opaque) else "object()", "impl": r.impl}, f"malformed:{r.case.args[0]}:{r.impl}")
+        if r.case.tag == "conv-same-value-both-kinds" and r.case.args[0].split("_")[1] == "from" and not r.impl.startswith("V P" if r.case.args[0].startswith("priv") else "V K"):
+            ck.violation("reading a 32-byte value as a key of one kind gave a key of the other kind (or failed) after the same value had been read as the other kind",
+                         {"call": r.case.args[0], "value": proto.enc(r.case.args[1])[:140], "impl": r.impl[:80]}, f"conversion-kind:{r.case.args[0]}")
         if r.case.tag == "equiv-kinds" and r.impl not in ("F", "E AttributeError"):
             ck.violation("keys of different kinds reported equivalent", {"impl": r.impl}, "equiv-kinds")
     # conversion compositions return the same value (implementation-side oracle)
